@@ -97,7 +97,13 @@ def _usage_pass(F):
                 else:
                     flat.add(x)
         local = {T.cmp("eq", 8, ("v", "src", 8), T.K(8, 1)), T.cmp("eq", 8, ("v", "opc", 8), T.K(8, CALL))} <= flat
-        calc = [e for e in st.effects if e[0] == "call" and isinstance(e[1], str) and e[1].endswith("calculate_stack_usage_for_local_func")]
+        # the calculator is asked either through the private helper that wraps it or directly (the helper written inline):
+        # an indirect call through the stored `calculator`, whose second argument is the function's first instruction
+        asked = [cn(e[2][-1]) for e in st.effects if e[0] == "call" and isinstance(e[1], str) and e[1].endswith("calculate_stack_usage_for_local_func")]
+        asked += [cn(e[3][1]) for e in st.effects if e[0] == "call" and e[1] == "indirect" and "calculator" in repr(e[2])[:300] and len(e[3]) >= 2]
+        calc = asked
+        no_calc = any(isinstance(c, tuple) and c and ((c[0] == "call" and c[1] == "is_None") or (c[0] == "not" and isinstance(c[1], tuple) and c[1][:2] == ("call", "is_Some")))
+                      and "calculator" in repr(c)[:300] for c in flat)
         ins = [e for e in st.effects if e[0] == "call" and isinstance(e[1], str) and e[1].endswith("::insert")]
         failed = any(isinstance(c, tuple) and c and c[0] == "not" and "is_ok" in repr(c)[:40] for c in conds)
         if st.unrec:
@@ -105,11 +111,15 @@ def _usage_pass(F):
         if local:
             if failed:
                 continue        # the calculator's own error is propagated
-            extra = [c for c in flat if c not in (T.cmp("eq", 8, ("v", "src", 8), T.K(8, 1)), T.cmp("eq", 8, ("v", "opc", 8), T.K(8, CALL))) and "is_ok" not in repr(c)[:60]]
+            extra = [c for c in flat if c not in (T.cmp("eq", 8, ("v", "src", 8), T.K(8, 1)), T.cmp("eq", 8, ("v", "opc", 8), T.K(8, CALL))) and "is_ok" not in repr(c)[:60]
+                     and not (("is_Some" in repr(c)[:40] or "is_None" in repr(c)[:40]) and "calculator" in repr(c)[:300])]
             if extra:
                 probs.append("a local call is subject to a further condition: %s" % _shc(extra[0]))
-            if not (len(calc) == 1 and cn(calc[0][2][-1]) == target):
-                probs.append("calculator asked about %s" % ([_shc(cn(e[2][-1])) for e in calc] or "nothing"))
+            if no_calc:
+                if calc:
+                    probs.append("a calculator is called although none is registered")
+            elif not (len(calc) == 1 and calc[0] == target):
+                probs.append("calculator asked about %s" % ([_shc(x) for x in calc] or "nothing"))
             if not (len(ins) == 1 and cn(ins[0][2][1]) == target):
                 probs.append("table entry under %s" % ([_shc(cn(e[2][1])) for e in ins] or "nothing"))
             n_ins += 1
